@@ -5,9 +5,9 @@ import { evalSemantic, firstDiff, eraseHints } from './semantic.mjs';
 
 export const id = 'C05';
 
-export const HOSTS = ['inputNoType', 'inputText', 'inputCheckbox', 'inputRadio', 'inputDynamic', 'inputBracedConst', 'inputOtherStatic', 'select', 'textarea', 'component', 'componentUnbound'];
+export const HOSTS = ['inputNoType', 'inputText', 'inputCheckbox', 'inputRadio', 'inputDynamic', 'inputBracedConst', 'inputOtherStatic', 'select', 'textarea', 'component', 'componentUnbound', 'memberInput', 'memberSelect', 'memberDeepTextarea'];
 export const TARGETS = ['ident', 'member', 'index', 'deepMember', 'memberOfCall', 'indexOfCallMember', 'thisLikeChain'];
-export const ARGS = ['none', 'ns', 'strSecond', 'computedSecond'];
+export const ARGS = ['none', 'ns', 'strSecond', 'computedSecond', 'nsHyphen', 'strSecondHyphen'];
 export const MODS = ['none', 'suffix1', 'suffix2', 'arrayList', 'arrayEmpty'];
 
 export function hostOf(b, host) {
@@ -30,6 +30,10 @@ export function hostOf(b, host) {
     case 'textarea': return { tag: { kind: 'html', name: 'textarea', src: 'textarea' }, pre: [], directive: 'vModelText', isComp: false };
     case 'component': b.importDefault('probe:C0', 'C0'); return { tag: { kind: 'bound', src: 'C0', i: b.leaf('C0') }, pre: [], isComp: true };
     case 'componentUnbound': return { tag: { kind: 'unbound', name: 'Foo', src: 'Foo' }, pre: [], isComp: true };
+    // member-expression tags are components whatever their last segment is called
+    case 'memberInput': b.importNs('probe:ns', 'ns0'); return { tag: { kind: 'member', src: 'ns0.input', i: b.leaf('ns0.input') }, pre: [], isComp: true };
+    case 'memberSelect': b.importNs('probe:ns', 'ns0'); return { tag: { kind: 'member', src: 'ns0.select', i: b.leaf('ns0.select') }, pre: [], isComp: true };
+    case 'memberDeepTextarea': b.importNs('probe:ns', 'ns0'); return { tag: { kind: 'member', src: 'ns0.inner.textarea', i: b.leaf('ns0.inner.textarea') }, pre: [], isComp: true };
     default: throw new Error(host);
   }
 }
@@ -57,6 +61,9 @@ export function makeModel(b, hostInfo, targetKind, argForm, modForm, idx) {
   let name = 'v-model';
   let second = null;
   if (argForm === 'ns') { name += `:title${idx}`; den.arg = { k: 'str', v: `title${idx}` }; }
+  // argument names are kept as written (a hyphen is not camelised)
+  else if (argForm === 'nsHyphen') { name += `:first-name${idx}`; den.arg = { k: 'str', v: `first-name${idx}` }; }
+  else if (argForm === 'strSecondHyphen') { second = `"row-value${idx}"`; den.arg = { k: 'str', v: `row-value${idx}` }; }
   else if (argForm === 'strSecond') { second = `"named${idx}"`; den.arg = { k: 'str', v: `named${idx}` }; }
   else if (argForm === 'computedSecond') { const g = b.global({ k: 'str', v: `dyn${idx}` }); second = g; den.arg = { k: 'leaf', i: b.leaf(g) }; }
   let third = null;
@@ -65,7 +72,7 @@ export function makeModel(b, hostInfo, targetKind, argForm, modForm, idx) {
   else if (modForm === 'arrayList') { third = '["lazy", "number"]'; den.mods = ['lazy', 'number']; }
   else if (modForm === 'arrayEmpty') { third = '[]'; }
   // combinations not decided by the statement
-  if (argForm === 'ns' && second) return null;
+  if ((argForm === 'ns' || argForm === 'nsHyphen') && second) return null;
   if ((modForm === 'suffix1' || modForm === 'suffix2') && (second || third)) return null;
   if (!hostInfo.isComp && argForm !== 'none') return null; // argument on a form element: unspecified
   const parts = [t.src];
@@ -74,7 +81,7 @@ export function makeModel(b, hostInfo, targetKind, argForm, modForm, idx) {
   const attrSrc = parts.length === 1 && !(argForm === 'none' && false) ? `${name}={${t.src}}` : `${name}={[${parts.join(', ')}]}`;
   // v-models entry: [target, "arg"?, [mods]?] — only expressible without suffixes / :arg
   let entrySrc = null;
-  if (argForm !== 'ns' && !modForm.startsWith('suffix')) entrySrc = `[${parts.join(', ')}]`;
+  if (argForm !== 'ns' && argForm !== 'nsHyphen' && !modForm.startsWith('suffix')) entrySrc = `[${parts.join(', ')}]`;
   return { attrSrc, entrySrc, den };
 }
 
@@ -131,14 +138,19 @@ export function* generate({ tier, seed }) {
   const nMulti = tier === 'quick' ? 400 : 5000;
   for (let i = 0; i < nMulti; i++) { const c = buildMulti(rng); yield { gid: `C05-${n++}`, src: c.src, syntax: 'jsx', spec: c.spec, feature: c.feature, variants: [{ vid: 'v0', options: rng.pick(OPTS) }] }; }
   // v-models lists (components) and the same entries as separate v-model attributes
+  // v-models on a form element: the same as the one v-model it lists
+  for (const host of HOSTS.filter((h) => !/^component|^member/.test(h))) for (const tk of TARGETS) for (const mf of ['none', 'arrayList', 'arrayEmpty']) {
+    const g = emit(host, [[tk, 'none', mf]], 'models', rng.pick(['none', 'plainBefore', 'plainAfter']), [rng.pick(OPTS)]);
+    if (g) yield g;
+  }
   const nLists = tier === 'quick' ? 2500 : 30000;
   for (let i = 0; i < nLists; i++) {
     const len = 1 + rng.int(3);
     const entries = [];
-    for (let j = 0; j < len; j++) entries.push([rng.pick(TARGETS), rng.pick(['none', 'strSecond', 'strSecond', 'strSecond', 'strSecond', 'computedSecond']), rng.pick(['none', 'arrayList', 'arrayEmpty'])]); // computed arguments hit a known finding: keep them rare
+    for (let j = 0; j < len; j++) entries.push([rng.pick(TARGETS), rng.pick(['none', 'strSecond', 'strSecond', 'strSecond', 'strSecondHyphen', 'computedSecond']), rng.pick(['none', 'arrayList', 'arrayEmpty'])]); // computed arguments hit a known finding: keep them rare
     // at most one entry without an argument (two would both bind modelValue)
     if (entries.filter((e) => e[1] === 'none').length > 1) continue;
-    const host = rng.pick(['component', 'componentUnbound']);
+    const host = rng.pick(['component', 'componentUnbound', 'memberInput', 'memberDeepTextarea']);
     for (const mode of ['models', 'single']) {
       const nb = rng.pick(['none', 'plainBefore', 'spreadBefore', 'plainAfter', 'spreadAfter', 'listenerAfter']);
       // an explicit listener written after the model overrides it under last-wins semantics: only with mergeProps on
